@@ -784,6 +784,18 @@ class AdnlWorld(HistoryWorld):
                 self.V(ctx, 'derivation-differs-from-reference', 'mnemonic_to_wallet_key', 'list-overwritten-in-place',
                        'after the caller put another phrase into the same list object, the derivation %s' % ('raised %r' % (kp2,) if not ok else 'did not return the key of the phrase the list holds now'))
                 return
+        # the phrase handed over as other kinds of collection (a tuple; one-shot iterables - the words may come straight from
+        # str.split / map / a generator).  A library may insist on a list; if it answers, the answer is the key of the WHOLE phrase
+        for form, mk in (('tuple', lambda: tuple(words)), ('iterator', lambda: iter(list(words))), ('generator', lambda: (w for w in words)),
+                         ('map', lambda: map(str.strip, list(words)))):
+            okf, kpf = call(fn, mk())
+            ctx.evaluated(1)
+            if okf and tuple(kpf) != (pub, priv):
+                ctx.probe('phrase-as-other-collection')
+                self.V(ctx, 'derivation-depends-on-container', 'mnemonic_to_wallet_key', 'words-as-' + form,
+                       'the same phrase handed over as %s derives another key than as a list' % form)
+                return
+        ctx.probe('phrase-as-other-collection')
         if op.get('fresh'):
             env = dict(os.environ, PYTHONHASHSEED='1', PYTHONDONTWRITEBYTECODE='1')
             code = ('import sys; sys.path.insert(0, %r); from pytoniq_core.crypto.keys import mnemonic_to_wallet_key as f; '
